@@ -20,7 +20,18 @@ def run(ctx, replay_case):
         cc = int.from_bytes(c[6:10], "big")
         corpus.append(ds.Case("Command", None, False, c, "corpus_cmd"))
         corpus.append(ds.Case("Response", cc, False, r, "corpus_rsp"))
-    strict_cases = wf + corpus
+    # "every input that strict decoding accepts": also inputs that should NOT be accepted — if one is, its events must still
+    # re-encode to it.  Regions padded with k surplus bytes (all size fields consistently increased) and single size faults of a
+    # sample of messages (seed C02f: strict mode swallowed an overrun of the session area and accepted bytes that are in no event)
+    wfm = [c for c in wf if c.kind in ("wf_cmd", "wf_rsp")]
+    wfm = wfm if ctx.tier == "thorough" else rnd.sample(wfm, min(len(wfm), 150))
+    odd = []
+    for c, b in zip(wfm, core.run_impl([c.op("S") for c in wfm])):
+        if b[-1].startswith("R done") and ds.widths_ok(b, L):
+            odd += ds.pad_faults(c, b, L, rnd, ctx.tier)
+            sf = ds.size_faults(c, b, L, rnd, ctx.tier)
+            odd += sf if ctx.tier == "thorough" else rnd.sample(sf, min(len(sf), 6))
+    strict_cases = wf + corpus + odd
     res = ds.run_both(strict_cases, "S", kind="DECU")
     impl, model = res["S"]
     ds.correspondence_violation(ctx, "DECU strict (events, re-encoding, slices)", strict_cases, "S", impl, model)
